@@ -151,6 +151,8 @@ type unitCase struct {
 	Pattern  []int    `json:"caller_sizes"`
 	BufMode  string   `json:"buf_mode"` // zero | stale-meta | aa | reuse | fill
 	FailAt   int      `json:"fail_after_chunks"` // -1 = none
+	CfgProg   string  `json:"config_program,omitempty"` // the transport was configured by this program (settings = what the calls addressed to it mean)
+	tr        *req.Transport
 	Group     int     `json:"interleaved_group,omitempty"` // > 0: read interleaved with the other readers of this group on one transport
 	Stack     string  `json:"stack,omitempty"`   // e2e: h1-cl | h1-chunked | h1-close | h2 | h3
 	GapMS     int     `json:"gap_ms,omitempty"`  // e2e: pause between segments
@@ -287,7 +289,10 @@ func driveUnit(u *unitCase) (o obs) {
 		if u.Set.RespCE != "" {
 			res.Header.Set("Content-Encoding", u.Set.RespCE)
 		}
-		t := u.Set.transport()
+		t := u.tr
+		if t == nil {
+			t = u.Set.transport()
+		}
 		t.VerifAutoDecodeResponseBody(res)
 		o.Kind, _, _, _, _ = req.VerifAutoDecodeState(res.Body)
 		readLoop(res.Body, u.Pattern, u.BufMode, maxCallsFor(u), &o)
